@@ -473,29 +473,32 @@ def r7_isqrt(text, base_line=0):
 
 
 def _panic_calls(text):
+    """(start, end, line, is_statement) of every panic!(..) / unimplemented!(..) macro call"""
     toks, match = _retok(text)
     out = []
     for i, tk in enumerate(toks):
-        if tk.kind == "id" and tk.text == "panic" and i + 2 < len(toks) and toks[i + 1].text == "!" and toks[i + 2].text == "(":
-            out.append((tk.start, toks[match[i + 2]].end, tk.line))
+        if tk.kind == "id" and tk.text in ("panic", "unimplemented") and i + 2 < len(toks) and toks[i + 1].text == "!" and toks[i + 2].text == "(":
+            c = match[i + 2]
+            stmt = c + 1 < len(toks) and toks[c + 1].text == ";"
+            out.append((tk.start, toks[c].end, tk.line, stmt))
     return out
 
 
 def r13_panic_allowed(text, base_line=0):
     """R13: `panic!(..)` -> `reject()` (external_body, ensures false): rejecting the call is a permitted outcome"""
     log, edits = [], []
-    for s0, e0, ln in _panic_calls(text):
-        edits.append((s0, e0, "reject()"))
-        log.append("R13 line %d: `%s` -> `reject()` (diverges; a permitted outcome for this unit)" % (base_line + ln - 1, " ".join(text[s0:e0].split())[:70]))
+    for s0, e0, ln, stmt in _panic_calls(text):
+        edits.append((s0, e0, "return reject_v()"))
+        log.append("R13 line %d: `%s` -> `return reject_v()` (`ensures false`: diverges; a permitted outcome for this unit)" % (base_line + ln - 1, " ".join(text[s0:e0].split())[:70]))
     return _apply_edits(text, edits), log
 
 
 def r14_panic_forbidden(text, base_line=0):
     """R14: `panic!(..)` -> `must_not_reject()` (requires false): the call must be accepted under the unit's precondition"""
     log, edits = [], []
-    for s0, e0, ln in _panic_calls(text):
-        edits.append((s0, e0, "must_not_reject()"))
-        log.append("R14 line %d: `%s` -> `must_not_reject()` (must be unreachable)" % (base_line + ln - 1, " ".join(text[s0:e0].split())[:70]))
+    for s0, e0, ln, stmt in _panic_calls(text):
+        edits.append((s0, e0, "return must_not_reject_v()"))
+        log.append("R14 line %d: `%s` -> `return must_not_reject_v()` (`requires false`: must be unreachable)" % (base_line + ln - 1, " ".join(text[s0:e0].split())[:70]))
     return _apply_edits(text, edits), log
 
 
